@@ -619,6 +619,9 @@ class ZoneFn:
             return None
         if k == 'call':
             _, l, t = d
+            n = parse_array_len(self.body.local_ty(l))
+            if n is not None:
+                return (None, int(n)) if n.isdigit() else ('N:' + n, 0)
             if l in self.mut_roots:
                 return self.za.vec_fixed_len(self, l)
             r = self.za.call_retlen(self, t, ())
